@@ -87,10 +87,12 @@ type Sched struct {
 	Script      []Step
 	PCTChange   float64
 	Choose      func(parked []*G, rnd *rand.Rand) *G // scenario-specific bias; nil result = fall back to Policy
+	Transparent map[string]bool                      // script policy: gates a scripted goroutine is led through without a step of its own
 
 	Log     []Event
 	Panics  []string // panics raised by managed goroutines
 	Drift   int      // script steps that could not be followed
+	Dropped []Step   // those steps
 	Blocked int      // releases that ended in the watchdog
 	prio    map[*G]int
 	scriptWaits int
@@ -274,6 +276,9 @@ func (s *Sched) pick(p []*G, stepNo int) *G {
 				s.Script = s.Script[1:]
 				return g
 			}
+			if g != nil && g.state == stParked && s.Transparent[g.At] {
+				return g // an intermediate gate on the way to the scripted one: move on, the step stays
+			}
 			// a goroutine the executor has just spawned may not have reached its first point yet: give it a moment
 			if g == nil && strings.HasPrefix(st.G, s.AdoptPrefix) && s.scriptWaits < 40 {
 				s.scriptWaits++
@@ -283,11 +288,13 @@ func (s *Sched) pick(p []*G, stepNo int) *G {
 			// the named goroutine is not where the model says: drift, drop the step
 			if g == nil || g.state == stDone || g.state == stParked {
 				s.Drift++
+				s.Dropped = append(s.Dropped, st)
 				s.Script = s.Script[1:]
 				continue
 			}
 			// it is running/blocked: let somebody else move (free running)
 			s.Drift++
+			s.Dropped = append(s.Dropped, st)
 			s.Script = s.Script[1:]
 		}
 		return p[s.rng.Intn(len(p))]
@@ -371,16 +378,40 @@ func (s *Sched) Run() string {
 		}
 		g.state = stRunning
 		s.mu.Unlock()
-		g.wake <- struct{}{}
-		// wait for it (or anybody) to arrive, or for the watchdog
-		select {
-		case <-s.arrive:
-		case <-time.After(s.StepTimeout):
+		for {
+			g.wake <- struct{}{}
+			// wait until the released goroutine itself has parked again or finished (arrivals of other goroutines - adopted
+			// ones, goroutines that were blocked in the code under test - do not end the step), or for the watchdog
+			deadline := time.After(s.StepTimeout)
+		waitStep:
+			for {
+				select {
+				case <-s.arrive:
+					s.mu.Lock()
+					still := g.state == stRunning
+					s.mu.Unlock()
+					if !still {
+						break waitStep
+					}
+				case <-deadline:
+					s.mu.Lock()
+					if g.state == stRunning {
+						s.Blocked++
+					}
+					s.mu.Unlock()
+					break waitStep
+				}
+			}
+			// a scripted step runs through the transparent gates that follow it (the step is one atomic action of the model)
 			s.mu.Lock()
-			if g.state == stRunning {
-				s.Blocked++
+			again := s.Policy == "script" && len(s.Script) > 0 && g.state == stParked && s.Transparent[g.At]
+			if again {
+				g.state = stRunning
 			}
 			s.mu.Unlock()
+			if !again {
+				break
+			}
 		}
 	}
 }
